@@ -401,8 +401,12 @@ class Engine:
             m = re.match(r'\{alloc(\d+): (.*)\}$', t)
             if m: return s.static_ref(fn.crate, int(m.group(1)), m.group(2))
         if t in s.KNOWN_CONSTS: return s.KNOWN_CONSTS[t]
+        if t.startswith('ZeroSized: '): t = t[len('ZeroSized: '):]
+        if t.startswith('{closure@'): return T([], t)          # closure without captures
         if '::promoted[' in t:
             key = (fn.crate, t)
+            if key not in s.mir.fns:       # references print the trait path, definitions the impl span: promoteds belong to the current fn
+                key = (fn.crate, fn.name + t[t.rindex('::promoted['):])
             if key not in s._promoted:
                 pf = s.mir.fns.get(key)
                 if pf is None: raise Abort('promoted constant not in dump: ' + t)
@@ -954,6 +958,15 @@ class Engine:
             rv = rstate.m.pop(('ret', 0))
             return rstate, rv
         return one(st, obj)
+
+    def run_call(s, name, st, args, crate='sdk'):
+        """call a MIR function from inside a hook/model: the result state replaces st in place"""
+        r = s.resolve_callee(crate, name)
+        if r[0] != 'fn': raise Abort('run_call: function not found: ' + name)
+        rs, rv = s.call_fn(r[1], State(st.g, st.m), args)
+        if rs is None: st.g = False; return POISON
+        st.g = rs.g; st.m = rs.m
+        return rv
 
     # ------------------------------------------------------------------ entry helper
     def run(s, crate, name, args, st=None):
